@@ -3,10 +3,11 @@ import Infretis.Model.Repex
 C06, part 1: observational equality of sampler states and the congruence of every operation of the
 replica-exchange state machine with respect to it.
 
-`ObsR strict ra rb a b` relates two states that agree on everything the operations read:
+`ObsR strict t0 ra rb a b` relates two states that agree on everything the operations read:
   n, W, trajs, locks, locked, locked0, workers, cstep, tsteps, trajNum, ensEng, seed, entropy, spawned,
   mainDraws; `frac` and `wts` as finite maps (same `lookup` for every key — the restored state holds the
-  same entries in another order); with `strict` also toinitiate and occ.
+  same entries in another order); with `strict` also occ and toinitiate (both equal to `t0`: no operation
+  changes it, so the index keeps track of "the initiation is closed" along a run for free).
 NOT compared (differences that remain by design after a restart): cworker, restarted, rgenRestored, and
 `rows` (the rows live in the data file, not in the restart image) — for `rows` the relation records that
 both sides appended the same rows to their respective bases `ra`, `rb`.
@@ -24,7 +25,7 @@ theorem FEq.refl (f : AL) : FEq f f := fun _ => rfl
 theorem FEq.symm {f g : AL} (h : FEq f g) : FEq g f := fun q => (h q).symm
 theorem FEq.trans {f g k : AL} (h1 : FEq f g) (h2 : FEq g k) : FEq f k := fun q => (h1 q).trans (h2 q)
 
-structure ObsR (strict : Prop) (ra rb : List Row) (a b : St) : Prop where
+structure ObsR (strict : Prop) (t0 : Int) (ra rb : List Row) (a b : St) : Prop where
   n : a.n = b.n
   W : a.W = b.W
   trajs : a.trajs = b.trajs
@@ -42,18 +43,18 @@ structure ObsR (strict : Prop) (ra rb : List Row) (a b : St) : Prop where
   entropy : a.entropy = b.entropy
   spawned : a.spawned = b.spawned
   mainDraws : a.mainDraws = b.mainDraws
-  toinitiate : strict → a.toinitiate = b.toinitiate
+  toinitiate : strict → a.toinitiate = t0 ∧ b.toinitiate = t0
   occ : strict → a.occ = b.occ
   rows : ∃ r, a.rows = ra ++ r ∧ b.rows = rb ++ r
 
 /-- everything `sysStep` reads agrees -/
-def ObsEq (a b : St) : Prop := ObsR True a.rows b.rows a b
+def ObsEq (a b : St) : Prop := ObsR True a.toinitiate a.rows b.rows a b
 
-theorem ObsR.refl (s : St) : ObsR True s.rows s.rows s s :=
+theorem ObsR.refl (s : St) : ObsR True s.toinitiate s.rows s.rows s s :=
   ⟨rfl, rfl, rfl, rfl, rfl, rfl, rfl, rfl, rfl, rfl, FEq.refl _, FEq.refl _, rfl, rfl, rfl, rfl, rfl,
-   fun _ => rfl, fun _ => rfl, ⟨[], by simp, by simp⟩⟩
+   fun _ => ⟨rfl, rfl⟩, fun _ => rfl, ⟨[], by simp, by simp⟩⟩
 
-theorem ObsR.weaken {p : Prop} {ra rb : List Row} {a b : St} (h : ObsR True ra rb a b) : ObsR p ra rb a b :=
+theorem ObsR.weaken {p : Prop} {t0 : Int} {ra rb : List Row} {a b : St} (h : ObsR True t0 ra rb a b) : ObsR p t0 ra rb a b :=
   { h with toinitiate := fun _ => h.toinitiate trivial, occ := fun _ => h.occ trivial }
 
 /-- results of fallible operations: same error, or related values -/
